@@ -314,6 +314,19 @@ Example C08_nonvacuous :
   flag_after (IKey 1 2) None true [r; r; raw_empty; r] = false /\ flag_after (IKey 1 2) None true [r; r] = true.
 Proof. repeat split. Qed.
 
+(* ---- app stage: the executable judgement of coq/Check is sound for the model on every scenario of the profile, and transfers
+   to every trace that agrees with the model's run ---- *)
+From BEI Require Check.C08w Check.C08r Proofs.JudgeC08P.
+Theorem C08_app_judgement_sound : forall sc, JudgeC08P.profile_C08b sc = true -> C08w.ok8w (sc, App.trace (App.run sc)) = 0%Z.
+Proof. exact JudgeC08P.C08_app_judgement_sound. Qed.
+
+Theorem C08_app_judgement_transfer : forall sc t, JudgeC08P.profile_C08b sc = true -> JudgeC12P.one_op_frames sc = true -> App.agree_full (sc, t) = true -> C08w.ok8w (sc, t) = 0%Z.
+Proof. exact JudgeC08P.C08_app_judgement_transfer. Qed.
+
+Theorem C08_routes_judgement_sound : forall m, JudgeC08P.profile_C08rb m = true -> C08r.ok8r (m, JudgeC08P.run_m m) = 0%Z.
+Proof. exact JudgeC08P.C08r_judgement_sound. Qed.
+
+
 Print Assumptions C08_suppressed.
 Print Assumptions C08_released.
 Print Assumptions C08_flag_one_frame.
@@ -355,3 +368,6 @@ Print Assumptions C08_rebuild_shared.
 Print Assumptions C08_rebuild.
 Print Assumptions C08_rebuild_suppressed.
 Print Assumptions C08_rebuild_operation.
+Print Assumptions C08_app_judgement_sound.
+Print Assumptions C08_app_judgement_transfer.
+Print Assumptions C08_routes_judgement_sound.
